@@ -198,6 +198,20 @@ func (w *world) honest(t fataler, block uint64) []byte {
 
 // judge applies the soundness oracle to arbitrary bytes.
 func judge(t fataler, w *world, block uint64, proof []byte, honest []byte, what string) (reached string) {
+	reached = judgeWith(t, w, block, proof, honest, what, wmpt.New(nil, nil))
+	if !bytes.Equal(proof, honest) {
+		// the same verdict is required of a verifier object that has verified the honest proof before
+		used := wmpt.New(nil, nil)
+		if _, _, err := used.VerifyBlockProof(block, honest); err == nil {
+			if r := judgeWith(t, w, block, proof, honest, what+" (verifier that verified the honest proof before)", used); r != reached {
+				ev.Class("verdict-differs-on-a-used-verifier:"+reached+"->"+r, 1)
+			}
+		}
+	}
+	return reached
+}
+
+func judgeWith(t fataler, w *world, block uint64, proof []byte, honest []byte, what string, verifier *wmpt.WeightedMerkleTrie) (reached string) {
 	var h, v []byte
 	var err error
 	func() {
@@ -206,7 +220,7 @@ func judge(t fataler, w *world, block uint64, proof []byte, honest []byte, what 
 				t.Fatalf("VerifyBlockProof panicked on %s: %v (proof %x)", what, r, proof)
 			}
 		}()
-		h, v, err = wmpt.New(nil, nil).VerifyBlockProof(block, proof)
+		h, v, err = verifier.VerifyBlockProof(block, proof)
 	}()
 	if err != nil {
 		return "rejected"
